@@ -980,9 +980,16 @@ def rule_r5(chk, prog):
     t = prog.mod('tmpfiles')
     cb = t.func('copy_binaries')
     consumed = []
+    from ..astutil import resolve_near
+    COPIES = ('shutil.copy', 'shutil.copy2', 'shutil.copyfile')
     for c in calls_in(cb):
-        if call_name(c) == 'shutil.copy':
-            consumed.append(unparse(c.args[0]))
+        if call_name(c) in COPIES:
+            a0 = resolve_near(cb, c.args[0], c)
+            if isinstance(a0, ast.Subscript) and isinstance(
+                    a0.value, ast.Name):
+                a0 = ast.Subscript(value=resolve_near(cb, a0.value, c),
+                                   slice=a0.slice, ctx=ast.Load())
+            consumed.append(unparse(a0))
         elif isinstance(c.func, ast.Name) and c.func.id in t.funcs:
             # copying delegated to a helper of the module (one level)
             h = t.funcs[c.func.id]
@@ -991,7 +998,7 @@ def rule_r5(chk, prog):
             except AnalysisError:
                 continue
             for hc in calls_in(h):
-                if call_name(hc) == 'shutil.copy' and hc.args:
+                if call_name(hc) in COPIES and hc.args:
                     consumed.append(unparse(subst(hc.args[0], b)))
     main = cli.func('ddsmt_main')
     for c in calls_in(main):
